@@ -22,7 +22,7 @@ impl Check for C06 {
         800
     }
     fn cases(&self, tier: Tier) -> u64 {
-        tier.pick(6_000, 500_000)
+        tier.pick(20_000, 1_000_000)
     }
     fn run_case(&self, src: &mut Src, obs: &mut Obs) -> Result<(), Fail> {
         let two_d = src.chance(1, 3);
